@@ -16,6 +16,7 @@ mod c14;
 mod c15;
 mod c15_repro;
 mod c16;
+mod c17;
 mod c18;
 mod c20;
 mod c20x;
@@ -53,6 +54,7 @@ fn main() {
         "c15-repro" => c15_repro::run(&rest),
         "c20" => c20::run(&rest),
         "c16" => c16::run(&rest),
+        "c17" => c17::run(&rest),
         "c18" => c18::run(&rest),
         _ => {
             eprintln!("usage: echo-verif <ids|c04|...> args");
